@@ -47,6 +47,19 @@ func NamedSpec(stream string, off map[string]bool, from, to uint64) Spec {
 			return o
 		}
 		s.CLI = func(i uint64, rng *core.Rand) CLIOpts { return CLIOpts{StrictEnumText: rng.Bool()} } // zap on
+	case "evo":
+		// even index: writer schema; odd index: the same program evolved
+		s.Base = func(i uint64) uint64 { return i - i%2 }
+		s.Sem = func(i uint64, rng *core.Rand) idlm.SemOpts {
+			return idlm.SemOpts{MaxFiles: 3, MaxDefs: 6, Defaults: true, ScalarDefaultsOnly: true, Dirs: rng.Bool(), ForGen: true, GoAnns: rng.Bool(), Off: off}
+		}
+		s.CLI = func(i uint64, rng *core.Rand) CLIOpts { return CLIOpts{NoZap: rng.Bool()} }
+		s.Layout = nil
+		s.Mutate = func(i uint64, rng *core.Rand, p *idlm.Program) {
+			if i%2 == 1 {
+				idlm.Evolve(p, rng)
+			}
+		}
 	case "svc":
 		s.Sem = func(i uint64, rng *core.Rand) idlm.SemOpts {
 			o := base(i, rng)
